@@ -170,8 +170,9 @@ fn check_lines(c: &TextCase, obs: &mut Obs) -> Verdict {
 
 fn strat(tier: Tier) -> BoxedStrategy<Case> {
     prop_oneof![
-        4 => seq_case(tier.pick(100, 300), true, 3).prop_map(Case::Seq),
-        1 => line_case(tier.pick(40, 120), false).prop_map(Case::Lines),
+        16 => seq_case(tier.pick(100, 300), true, 3).prop_map(Case::Seq),
+        4 => line_case(tier.pick(40, 120), false).prop_map(Case::Lines),
+        1 => big_line_case(tier.pick(130, 300)).prop_map(Case::Lines),
     ]
     .boxed()
 }
